@@ -187,6 +187,37 @@ func runC10(c *vkit.Ctx, lab *Lab, r *rand.Rand, i int) {
 	}
 	own := BuildOwned(rec)
 	lab.Seed(r, own, LabOpts{Stale: true, Hostile: true})
+	if i%8 == 6 {
+		// a used file ALL of whose entries are stale, sorting first in its directory, and
+		// the ids it holds are the ones that are live in the files Clean examines next: a
+		// test now also calls into "!first.snap" with Update(false) (its entry is missing,
+		// the call fails, the file stays in use); the file holds copies of the other files'
+		// live ids, which are stale there
+		var ents []vkit.SnapEntry
+		for k, t := range own.Entry {
+			if filepath.Dir(k[0]) == lab.AbsDir && t != "" {
+				ents = append(ents, vkit.SnapEntry{ID: k[1], Body: "a stale copy held by another file"})
+			}
+		}
+		if len(ents) > 0 {
+			sort.Slice(ents, func(a, b int) bool { return ents[a].ID < ents[b].ID })
+			seen := map[string]bool{}
+			var uniq []vkit.SnapEntry
+			for _, e := range ents {
+				if !seen[e.ID] {
+					seen[e.ID] = true
+					uniq = append(uniq, e)
+				}
+			}
+			os.MkdirAll(lab.AbsDir, 0o755)
+			os.WriteFile(filepath.Join(lab.AbsDir, "!first.snap"), []byte(vkit.RenderSnapFile(uniq)), 0o644)
+			no := false
+			t0 := lc.Tests[0]
+			lc.Scenario.Nodes[t0].Calls = append(lc.Scenario.Nodes[t0].Calls, Call{API: "snap", Dir: lab.AbsDir, File: "!first", Update: &no, Val: "never stored"})
+			lc.Classes["used-file-holding-only-stale-copies-of-ids-live-elsewhere"] = true
+			c.Count("cases_with_a_used_file_of_stale_entries_only", 1)
+		}
+	}
 	base := lab.snapshotTree()
 	deletes, sorts := vkit.CleanPerm(vkit.Mode{UpdateVar: lc.Update}, lc.Sort)
 	in := labSample(lc)
